@@ -31,10 +31,12 @@ def changes_of(ctx, env0, spec, objs, script):
     return changes, prims
 
 
-def h_sim(ctx, skeleton, script, date, n=3, toggles=(), args=None, extra_sym=()):
+def h_sim(ctx, skeleton, script, date, n=3, toggles=(), args=None, extra_sym=(), second=None):
     spec = M.SKELETONS[skeleton](n, **(args or {}))
     sym = traffic_syms(spec)
     sym.update(collect_slots(spec, script))
+    if second:
+        sym.update(collect_slots(spec, second))
     for slot in extra_sym:
         o, p = slot.split(".")
         sym[slot] = _sym_for(spec, o, p)
@@ -53,12 +55,24 @@ def h_sim(ctx, skeleton, script, date, n=3, toggles=(), args=None, extra_sym=())
                         else f"after the simulation raised {type(err).__name__}")
     if err is not None:
         raise err
-    for i, t in enumerate(toggles):
-        if t == "set":
-            sim.set_updated_values()
-        else:
-            sim.reset_values()
-            S.compare_snapshots(ctx, before, S.snapshot(objs), f"after toggle {i + 1} ({'/'.join(toggles[:i + 1])})")
+    sims = [sim]
+    if second:
+        # a second simulation created while the first one exists; both are then toggled, the older one too
+        changes2, _ = changes_of(ctx, env0, spec, objs, second)
+        try:
+            sims.append(ModelingUpdate(changes2, when))
+        except Exception as e:  # noqa
+            S.compare_snapshots(ctx, before, S.snapshot(objs), f"after the second simulation raised {type(e).__name__}")
+            raise
+        S.compare_snapshots(ctx, before, S.snapshot(objs), "after creating a second simulation")
+    for k, sm in enumerate(sims):
+        for i, t in enumerate(toggles):
+            if t == "set":
+                sm.set_updated_values()
+            else:
+                sm.reset_values()
+                S.compare_snapshots(ctx, before, S.snapshot(objs),
+                                    f"after toggle {i + 1} ({'/'.join(toggles[:i + 1])}) of simulation {k + 1} of {len(sims)}")
     V.observe_system(ctx, objs, "end.")
 
 
@@ -75,7 +89,10 @@ SCRIPTS_T9 = [[L("job", "server", "srv_alt")], [L("up", "network", "net_alt")], 
               [L("up", "usage_journey", "uj_alt")], [LA("step", "jobs", ["job", "job_alt"])],
               [LA("uj", "uj_steps", ["step", "step3"])], [LA("up", "devices", ["dev", "dev_alt"])],
               [L("job", "server", "srv_alt"), num("srv_alt", "ram")], [num("job", "data_transferred"), L("up", "network", "net_alt")],
-              [num("job2", "ram_needed")]]
+              [num("job2", "ram_needed")],
+              [L("job", "server", "srv_alt"), L("job2", "server", "srv_alt")],
+              [L("up", "country", "de"), L("up2", "country", "de")],
+              [L("up", "network", "net_alt"), L("up2", "network", "net_alt"), num("net_alt", "bandwidth_energy_intensity")]]
 SCRIPTS_T5 = [[num("srv", "ram")], [dict(k="fixed", obj="srv", val="sym")], [num("job2", "compute_needed")]]
 
 
@@ -90,6 +107,9 @@ def plan(tier, seed):
         p.append(("sim", dict(skeleton="T9", script=sc, date="interior", n=2, toggles=["set", "reset"])))
     for sc in SCRIPTS_T5:
         p.append(("sim", dict(skeleton="T5", script=sc, date="first", n=2, toggles=["reset", "set", "reset"])))
+    p.append(("sim", dict(skeleton="T1", script=[num("job", "data_transferred")], second=[num("srv", "power")], date="interior", toggles=["set", "reset"])))
+    p.append(("sim", dict(skeleton="T9", script=[L("job", "server", "srv_alt")], second=[num("job2", "ram_needed")], date="first", n=2, toggles=["set", "reset", "set", "reset"])))
+    p.append(("sim", dict(skeleton="T9", script=[num("dev", "power")], second=[L("up", "network", "net_alt")], date="interior", n=3, toggles=["set", "reset"])))
     if tier == "thorough":
         for sc in SCRIPTS_T1:
             for d in ("first", "last"):
